@@ -71,6 +71,18 @@ def cases(tier):
         for v in UNPRIV:
             for ending in ('pass', 'fail'):
                 yield ('unpriv', v, ending)
+    # the directory exactly was STARTED in disappears during the run (the case removes / renames it, or replaces it by a file): the caller's
+    # directory cannot be restored then, but the sandbox must still be removed (or kept and reported with --keep)
+    for how in ('rmdir', 'rename', 'file'):
+        for ending in ('pass', 'fail', 'hard'):
+            for mode in (False, True, 'act'):
+                yield ('startgone', how, ending, mode)
+    # exactly embedded through its library entry points with an EXPLICIT set of environment variables (os.environ itself / a dict of the caller):
+    # what the case does to "its" environment must not reach the mapping the embedder supplied
+    for which in ('os.environ', 'own-dict'):
+        for via in ('processor', 'full-execution'):
+            for ending in ('pass', 'fail', 'hard'):
+                yield ('embed-env', which, via, ending)
     for e in endings():
         for keep in (False, True, 'act'):
             for b in BEHAVIOURS:
@@ -284,9 +296,140 @@ def _unpriv(case) -> Result:
     return res
 
 
+def _startgone(case) -> Result:
+    _, how, ending, mode = case
+    res = Result()
+    res.n = 1
+    w = world.get()
+    w.reset()
+    seam = procseam.SEAM
+    seam.reset()
+    seam.script['atc'] = {'out': 'o\n', 'exit': 3}
+    start = w.ext / 'start-dir'
+    start.mkdir()
+    seen = {}
+
+    def hook(rec):
+        if rec['name'] == 'zap':
+            seen['sds'] = [os.path.join(str(w.sb), x) for x in w.sandboxes()]
+            if how == 'rmdir':
+                os.rmdir(str(start))
+            elif how == 'rename':
+                os.rename(str(start), str(start) + '-renamed')
+            else:
+                os.rmdir(str(start))
+                with open(str(start), 'w') as f:
+                    f.write('now a file')
+
+    seam.on_call = hook
+    lines = ['[setup]', 'run % zap', '[act]', '% atc', '[assert]', {'pass': 'exit-code == 3', 'fail': 'exit-code == 0', 'hard': 'stub main HEr end'}[ending],
+             '[cleanup]', "file made-in-cleanup.txt = 'x'"]
+    text = '\n'.join(lines) + '\n'
+    p = w.write('c.case', text)
+    os.chdir(str(start))
+    args = ['--keep'] if mode is True else (['--act'] if mode == 'act' else [])
+    o = cli.run(args + [str(p)], mp=stubprog.main_program())
+    errs = []
+    if o.exc:
+        errs.append('exception / hang: %s' % o.exc)
+    sbs = w.sandboxes()
+    if 'sds' not in seen:
+        errs.append('[setup] did not run')
+    if mode is True:
+        if len(sbs) != 1:
+            errs.append('--keep: sandbox root holds %s' % sbs)
+    elif sbs:
+        errs.append('the directory exactly was started in disappeared during the run (%s): sandbox not removed: %s' % (how, sbs))
+    w.restore_process_state()
+    res.states.add(('startgone', how, mode))
+    res.outcomes[('startgone', how, mode, o.out.strip().split('\n')[-1][:20] if mode is False else '')] += 1
+    res.nontrivial += 1
+    res.validated += 0 if errs else 1
+    if errs:
+        res.violation(case, errs, dict(o.brief(), file=text))
+    return res
+
+
+def _embed_env(case) -> Result:
+    import io
+    from exactly_lib.cli_default.program_modes.test_case import builtin_symbols, default_instructions_setup, test_case_handling_setup
+    from exactly_lib.common import instruction_name_and_argument_splitter
+    from exactly_lib.execution.configuration import PredefinedProperties
+    from exactly_lib.execution.predefined_properties import os_environ_getter
+    from exactly_lib.execution.full_execution import execution as full_execution
+    from exactly_lib.impls.os_services import os_services_access
+    from exactly_lib.processing import processors, test_case_processing
+    from exactly_lib.processing.instruction_setup import TestCaseParsingSetup
+    from exactly_lib.processing.parse.act_phase_source_parser import ActPhaseParser
+    from exactly_lib.util.symbol_table import SymbolTable
+    _, which, via, ending = case
+    res = Result()
+    res.n = 1
+    w = world.get()
+    w.reset()
+    seam = procseam.SEAM
+    seam.reset()
+    seam.default = {'exit': 0}
+    seam.script['nonzero'] = {'exit': 1}
+    os.environ['VERIF_EMB_KEEP'] = 'original'
+    environ = os.environ if which == 'os.environ' else dict(os.environ)
+    before = dict(environ)
+    lines = ['[setup]', 'env VERIF_EMB_SET = by-the-case', 'env unset VERIF_EMB_KEEP', 'env -of act VERIF_EMB_ACT = act-only', 'run % probe setup']
+    if ending == 'hard':
+        lines.append('run % nonzero')
+    lines += ['[act]', '% atc', '[before-assert]', 'env -of !act VERIF_EMB_NONACT = x', '[assert]', 'exit-code == %d' % (1 if ending == 'fail' else 0),
+              '[cleanup]', 'env VERIF_EMB_CLEANUP = set-in-cleanup', 'run % probe cleanup']
+    text = '\n'.join(lines) + '\n'
+    p = w.write('c.case', text)
+    errs = []
+    status = None
+    try:
+        symbols = SymbolTable({bs.name: bs.container for bs in builtin_symbols.ALL})
+        tcd = processors.TestCaseDefinition(TestCaseParsingSetup(instruction_name_and_argument_splitter.splitter, default_instructions_setup.INSTRUCTIONS_SETUP, ActPhaseParser()),
+                                            PredefinedProperties(os_environ_getter, environ, 60, symbols))
+        conf = processors.Configuration(tcd, test_case_handling_setup.setup(), os_services_access.new_for_current_os(), io.DEFAULT_BUFFER_SIZE, False)
+        ref = test_case_processing.test_case_reference_of_source_file(p)
+        if via == 'processor':
+            r = processors.new_processor_that_should_not_pollute_current_process(conf).apply(ref)
+            status = r.execution_result.status.name if r.status is test_case_processing.Status.EXECUTED else str(r.status)
+        else:
+            doc = processors.new_accessor_from_conf(conf).apply(ref)
+            r = full_execution.execute(conf.execution_configuration(),
+                                       processors.default_conf_phase_configuration__of_file(p, conf.default_handling_setup.act_phase_setup.actor_nav), False, doc)
+            status = r.status.name
+    except Exception as ex:
+        errs.append('exception: %s: %s' % (type(ex).__name__, ex))
+    want = {'pass': 'PASS', 'fail': 'FAIL', 'hard': 'HARD_ERROR'}[ending]
+    if status != want and not errs:
+        errs.append('status %s, expected %s' % (status, want))
+    probes = [c for c in seam.calls if c['name'] == 'probe']
+    if probes and (probes[0]['env'] or {}).get('VERIF_EMB_SET') != 'by-the-case':
+        errs.append('the probe in [setup] does not see the variable set by the case: the case has no effect (vacuous)')
+    after = dict(environ)
+    if after != before:
+        d = ['%s: %r -> %r' % (k, before.get(k), after.get(k)) for k in sorted(set(before) | set(after)) if before.get(k) != after.get(k)]
+        errs.append('the environment supplied by the embedder (%s) was changed by the test case: %s' % (which, '; '.join(d)))
+    os.environ.pop('VERIF_EMB_KEEP', None)
+    for k in ('VERIF_EMB_SET', 'VERIF_EMB_ACT', 'VERIF_EMB_NONACT', 'VERIF_EMB_CLEANUP'):
+        os.environ.pop(k, None)
+    if w.sandboxes():
+        errs.append('sandbox not removed: %s' % w.sandboxes())
+    res.states.add(('embed-env', which, via))
+    res.outcomes[('embed-env', which, via, status)] += 1
+    res.nontrivial += 1
+    res.validated += 0 if errs else 1
+    if errs:
+        res.violation(case, errs, {'file': text})
+    return res
+
+
 def run(case) -> Result:
     if case[0] == 'unpriv':
         return _unpriv(case)
+    if case[0] == 'embed-env':
+        return _embed_env(case)
+    if case[0] == 'startgone':
+        return _startgone(case)
     ending, mode, behaviour, output = case
     ending = tuple(ending)
     base_ending, cleanup_kind = split_ending(ending)
